@@ -725,6 +725,10 @@ def delete_raggedarray(ra):
     if not ra.accessmode == 'r+':
         raise OSError('Darr ragged array is read-only; set accessmode to '
                       '"r+" to change')
+    # check that both subarrays are (still) there and can be deleted before
+    # anything is removed
+    ra._values.check_arraywriteable()
+    ra._indices.check_arraywriteable()
     for fn in ra._protectedfiles:
         path = ra.path.joinpath(fn)
         if path.exists() and not path.is_dir():
